@@ -20,7 +20,7 @@ DECL_INPUT(wr_in);
 	MKOUT(obuf, (need)); uint8_t *op = (W.mode % 3 == 2) ? obuf : NULL; \
 	uint8_t **out = (W.mode % 3 == 0) ? NULL : &op; size_t outlen = W.outlen0
 
-//@job name=asn1_length_from_der props=C06,C14,C01,C02 enforce=asn1_length_from_der
+//@job name=asn1_length_from_der props=C06,C14,C01,C02,C20 enforce=asn1_length_from_der
 void h_asn1_length_from_der(void)
 {
 	RD_SETUP; size_t len;
@@ -89,7 +89,7 @@ void h_asn1_header_to_der(void)
 	CANARY("returned");
 }
 
-//@job name=asn1_type_from_der props=C06,C14,C01,C02 enforce=asn1_type_from_der replace=asn1_length_from_der
+//@job name=asn1_type_from_der props=C06,C14,C01,C02,C20 enforce=asn1_type_from_der replace=asn1_length_from_der
 void h_asn1_type_from_der(void)
 {
 	RD_SETUP; const uint8_t *d; size_t dlen;
@@ -320,7 +320,7 @@ void h_asn1_oid_node_roundtrip(void)
 	CANARY("returned");
 }
 
-//@job name=asn1_oid_from_octets props=C06,C14 enforce=asn1_object_identifier_from_octets replace=asn1_oid_node_from_base128 loops=1
+//@job name=asn1_oid_from_octets props=C06,C14,C20 enforce=asn1_object_identifier_from_octets replace=asn1_oid_node_from_base128 loops=1
 void h_asn1_oid_from_octets(void)
 {
 	RD_SETUP; INPUT(oid_in, O);
